@@ -1612,8 +1612,9 @@ def run_interleaved_case(ctx, idx, py, pyi, use_model=True, order=None):
         files = {"m.py": py, "m.pyi": pyi,
                  "user.py": "from pkg.m import " + ", ".join(names) + "\n",
                  "user.pyi": _restub(pyi, "U", {"int": "complex", "str": "bytearray"}),
-                 "via.py": "from pkg.user import " + ", ".join(names) + "\n",
-                 "via.pyi": _restub(pyi, "V", {"int": "frozenset", "float": "memoryview"})}
+                 # ... and an alias to the pair's MODULE itself, re-declared by via's stubs so that merging binds it
+                 "via.py": "from pkg.user import " + ", ".join(names) + "\nfrom pkg import m as mod_m\n",
+                 "via.pyi": _restub(pyi, "V", {"int": "frozenset", "float": "memoryview"}) + "mod_m: int\n"}
         pair = ("m", "user", "via")[idx % 3]
         trees = {fn: abstract(visit_file(d / "Q0" / fn, fn.split(".")[0])) for fn in files if not write(d / "Q0" / fn, files[fn])}
 
